@@ -595,7 +595,28 @@ seeded("x2-unconditional-replay", ["C02", "C18"], "X2", [(P, '''            self
                 return False
 ''', '''            self.__curcommand.reassign_arguments()
 ''')], "pre-fix behaviour; suite passes")
-seeded("x2-rewind-two", ["C02", "C18"], "X2", [(P, "            self.lexer.pos -= 1\n", "            self.lexer.pos -= 2\n")])
+seeded("x2-rewind-two", ["C02", "C18"], "X2", [(P, "            # rewind lexer\n            self.lexer.pos -= 1\n", "            # rewind lexer\n            self.lexer.pos -= 2\n")])
+seeded("x2-rewind-two-in-test-list", ["C02", "C18"], "X2", [(P, "                return False\n            self.lexer.pos -= 1\n            return self.__check_command_completion(testsemicolon=False)\n", "                return False\n            self.lexer.pos -= 2\n            return self.__check_command_completion(testsemicolon=False)\n")], "the replay after a settled test skips back over two bytes")
+seeded("p17-pre-fix-shape", ["C01", "C03"], "P17", [(P, '''        if (
+            ttype in ["comma", "right_parenthesis"]
+            and self.__curcommand.non_deterministic_args
+            and not self.__curcommand.iscomplete()
+        ):
+            # a test whose first argument is optional (hasflag "x") ends
+            # here: settle its arguments, then read the token again for
+            # the enclosing test list
+            self.__curcommand.reassign_arguments()
+            if not self.__curcommand.iscomplete():
+                return False
+            self.lexer.pos -= 1
+            return self.__check_command_completion(testsemicolon=False)
+
+''', "")], "the shape before 0ff9c98: `if anyof(hasflag \"x\", true)` rejected")
+seeded("p17-comma-only", ["C01", "C03"], "P17", [(P, '''            ttype in ["comma", "right_parenthesis"]
+            and self.__curcommand.non_deterministic_args
+            and not self.__curcommand.iscomplete()''', '''            ttype in ["comma"]
+            and self.__curcommand.non_deterministic_args
+            and not self.__curcommand.iscomplete()''')], "`if anyof(hasflag \"x\")` rejected")
 seeded("x2-foreign-reset", ["C02", "C18"], "X2", [(P, '''        if ttype == "left_parenthesis":
             self.__push_expected_bracket("right_parenthesis", b")")''', '''        if ttype == "left_parenthesis":
             self.lexer.pos = self.lexer.pos
